@@ -2,6 +2,8 @@
 
 package slip
 
+import "strings"
+
 const (
 	// ListSymbol is the symbol with a value of "list".
 	ListSymbol = Symbol("list")
@@ -114,34 +116,13 @@ func (obj List) LoadForm() Object {
 	if 2 <= len(obj) {
 		if tail, ok := obj[len(obj)-1].(Tail); ok {
 			form := List{Symbol("cons"), nil, nil}
-			switch te := obj[len(obj)-2].(type) {
-			case nil:
-				// already nil
-			case LoadFormer:
-				form[1] = te.LoadForm()
-			default:
-				PrintNotReadablePanic(NewScope(), 0, te, "Can not make a load form for %s.", te)
-			}
-			switch te := tail.Value.(type) {
-			case nil:
-				// already nil
-			case LoadFormer:
-				form[2] = te.LoadForm()
-			default:
-				PrintNotReadablePanic(NewScope(), 0, te, "Can not make a load form for %s.", te)
-			}
+			form[1] = dataLoadForm(obj[len(obj)-2])
+			form[2] = dataLoadForm(tail.Value)
 			if 2 < len(obj) {
 				head := make(List, len(obj)-1)
 				head[0] = ListSymbol
 				for i := 0; i < len(obj)-2; i++ {
-					switch te := obj[i].(type) {
-					case nil:
-						// already nil
-					case LoadFormer:
-						head[i+1] = te.LoadForm()
-					default:
-						PrintNotReadablePanic(NewScope(), 0, te, "Can not make a load form for %s.", te)
-					}
+					head[i+1] = dataLoadForm(obj[i])
 				}
 				form = List{Symbol("append"), head, form}
 			}
@@ -151,14 +132,26 @@ func (obj List) LoadForm() Object {
 	form := make(List, len(obj)+1)
 	form[0] = ListSymbol
 	for i, v := range obj {
-		switch tv := v.(type) {
-		case nil:
-			// already nil
-		case LoadFormer:
-			form[i+1] = tv.LoadForm()
-		default:
-			PrintNotReadablePanic(NewScope(), 0, tv, "Can not make a load form for %s.", tv)
-		}
+		form[i+1] = dataLoadForm(v)
 	}
 	return form
+}
+
+// dataLoadForm returns the load form of an object that is data, an element of
+// a list or a value in a table, and not code. A symbol is quoted so that
+// evaluating the form gives the symbol and not the value of a variable.
+func dataLoadForm(v Object) Object {
+	switch tv := v.(type) {
+	case nil:
+		return nil
+	case Symbol:
+		if 0 < len(tv) && tv[0] != ':' && !strings.EqualFold(string(tv), "t") {
+			return List{quoteSymbol, tv}
+		}
+		return tv
+	case LoadFormer:
+		return tv.LoadForm()
+	}
+	PrintNotReadablePanic(NewScope(), 0, v, "Can not make a load form for %s.", v)
+	return nil
 }
